@@ -133,8 +133,27 @@ func (e *kvElection) heartbeatLoop(ctx context.Context) {
 				// Check if it's a revision mismatch (possible priority takeover)
 				// Revision mismatch errors contain "revision mismatch" in the message
 				if strings.Contains(strings.ToLower(updateErr.Error()), "revision mismatch") {
-					// Get current leader to check if it's a priority takeover
-					entry, getErr := e.kv.Get(e.key)
+					// Get current leader to check if it's a priority takeover. The read only feeds
+					// the log line below: like the refresh it is bounded by the operation time-out,
+					// a store that stopped answering must not delay the demotion
+					type getResult struct {
+						entry Entry
+						err   error
+					}
+					getChan := make(chan getResult, 1)
+					go func() {
+						entry, getErr := e.kv.Get(e.key)
+						getChan <- getResult{entry: entry, err: getErr}
+					}()
+					var entry Entry
+					getErr := error(NewTimeoutError("heartbeat takeover check", updateTimeout, nil))
+					select {
+					case <-ctx.Done():
+						return
+					case <-time.After(updateTimeout):
+					case result := <-getChan:
+						entry, getErr = result.entry, result.err
+					}
 					if getErr == nil && entry != nil {
 						var currentPayload leadershipPayload
 						if json.Unmarshal(entry.Value(), &currentPayload) == nil {
